@@ -380,7 +380,54 @@ func run(t *testing.T, tape *simrt.Tape) *hx.Outcome {
 		reg := simreg.New(s, simreg.Config{Base: simreg.Personality(s.Tape.Draw("cfg", int(simreg.NumPersonalities))), Fickle: campaign == "hostile-http", ReadYield: false})
 		dg := digest.FromBytes(served)
 		reg.Blobs[dg.String()] = served
-		if campaign == "hostile-http" {
+		if campaign == "hostile-http" && variant == "gzip" && s.Tape.Draw("hostile", 4) == 0 {
+			// a registry that lies consistently about the size of the blob: the honest payload and
+			// TOC at the front, zeros, and the honest footer at the claimed end (whose TOC offset
+			// therefore points far away from the end)
+			virt := []int64{1 << 20, 1 << 32, 1 << 40, 1<<56 - 1}[s.Tape.Draw("hostile", 4)]
+			const fsz = 51
+			real := int64(len(served))
+			s.Stat("fault.lying_size", 1)
+			notes = append(notes, fmt.Sprintf("lying-size=%d", virt))
+			reg.Extra = func(rec *simreg.Request, req *http.Request) *http.Response {
+				if !strings.Contains(req.URL.Path, "/blobs/"+dg.String()) || real < fsz {
+					return nil
+				}
+				mk := func(code int, h http.Header, body []byte) *http.Response {
+					if h == nil {
+						h = http.Header{}
+					}
+					return &http.Response{StatusCode: code, Status: fmt.Sprintf("%d %s", code, http.StatusText(code)), Header: h, Body: io.NopCloser(bytes.NewReader(body)),
+						ContentLength: int64(len(body)), Request: req, Proto: "HTTP/1.1", ProtoMajor: 1, ProtoMinor: 1}
+				}
+				if req.Method == http.MethodHead {
+					r := mk(200, http.Header{"Content-Length": []string{fmt.Sprint(virt)}}, nil)
+					r.ContentLength = virt
+					return r
+				}
+				rg := req.Header.Get("Range")
+				var a, b int64
+				if n, _ := fmt.Sscanf(rg, "bytes=%d-%d", &a, &b); n != 2 || strings.Contains(rg, ",") || a < 0 || a > b || a >= virt {
+					return mk(400, nil, nil) // single ranges only
+				}
+				if b >= virt {
+					b = virt - 1
+				}
+				if b-a+1 > 1<<16 {
+					b = a + 1<<16 - 1 // a registry may answer with less than was asked for
+				}
+				body := make([]byte, b-a+1)
+				for i := range body {
+					switch pos := a + int64(i); {
+					case pos < real-fsz:
+						body[i] = served[pos]
+					case pos >= virt-fsz:
+						body[i] = served[real-(virt-pos)]
+					}
+				}
+				return mk(206, http.Header{"Content-Range": []string{fmt.Sprintf("bytes %d-%d/%d", a, b, virt)}, "Content-Length": []string{fmt.Sprint(len(body))}}, body)
+			}
+		} else if campaign == "hostile-http" {
 			reg.PostHook = func(rec *simreg.Request, req *http.Request, resp *http.Response) *http.Response {
 				dr := func(n int) int { return s.Tape.Draw("hostile", n) }
 				if dr(3) != 0 {
